@@ -62,6 +62,15 @@ def cmdDec (rest : String) : String :=
     | none => "bad-op"
   | _ => "bad-op"
 
+/-- `text dec8 | b0 b1 …` / `text dec16 | b0 b1 …`: the strict decoders on an arbitrary byte string -/
+def cmdDecBytes (wide : Bool) (rest : String) : String :=
+  match rest.splitOn "|" with
+  | [_, bs] =>
+    match (if wide then utf16Dec else utf8Dec) (nats bs) with
+    | some s => s!"ok r={showStr (decodeText textReadNewline s)}"     -- the newline mode of the current source's `read`
+    | none => "err"
+  | _ => "bad-op"
+
 end Uberjob.TextCodecDrv
 
 namespace Uberjob.TextCodec
@@ -70,6 +79,8 @@ namespace Uberjob.TextCodec
 def drv (line : String) : String :=
   let line := line.trimAscii.toString
   if line.startsWith "text rt " then Uberjob.TextCodecDrv.cmdRt (line.drop 8).toString
+  else if line.startsWith "text dec8 " then Uberjob.TextCodecDrv.cmdDecBytes false (line.drop 9).toString
+  else if line.startsWith "text dec16 " then Uberjob.TextCodecDrv.cmdDecBytes true (line.drop 10).toString
   else if line.startsWith "text dec " then Uberjob.TextCodecDrv.cmdDec (line.drop 9).toString
   else "bad-op"
 
